@@ -180,6 +180,11 @@ class LocBase(Blockwise):
             frame = Partitions(self.frame, parts)
             return type(self)(frame, self.iindexer, self.cindexer)
 
+    def _select_partitions(self, partitions):
+        # Output partition i is not computed from input partition i, and the
+        # indexer can't be evaluated against a reordered selection of the frame
+        return None
+
 
 class LocUnknown(Blockwise):
     _parameters = ["frame", "iindexer", "cindexer"]
